@@ -235,6 +235,14 @@ package vm
 //@ pred unmapped(vm) = all[string](k, !in(k, vm.pg.cacheMap)) && vm.pg.sink == nil && vm.pg.extra == ""
 //@ pred freshMenu(vm) = len(vm.mn.menu) == 0 && !vm.mn.sink && vm.mn.pageCount == 0 && vm.mn.keep
 
+// The configured separator reaches the current menu, not only the menus of later Resets (C07).
+//@ func (*Vm).WithMenuSeparator
+//@   serves C07
+//@   requires vmi != nil
+//@   modifies vmi.menuSeparator, vmi.mn.sep
+//@   ensures @kept result == vmi && vmi.menuSeparator == sep && vmi.mn == old(vmi.mn)
+//@   ensures[C07] @current sep != "" && vmi.mn != nil ==> vmi.mn.sep == sep
+
 //@ func (*Vm).Reset
 //@   requires vmi != nil && vmi.pg != nil
 //@   modifies vmi.mn, vmi.pg.sink, vmi.pg.extra, vmi.pg.cacheMap, vmi.pg.menu, vmi.pg.sizer
@@ -244,6 +252,7 @@ package vm
 //@   ensures @menu fresh(vmi.mn) && vmi.pg.menu == vmi.mn && freshMenu(vmi) && fresh(vmi.pg.cacheMap) && vmi.pg.cacheMap != nil
 //@   ensures @page old(render.memOk(vmi.pg.cache)) && (vmi.sizer != nil ==> render.sizerOk(vmi.sizer)) && (vmi.pg.sizer != nil ==> render.sizerOk(vmi.pg.sizer)) ==> render.pageOk(vmi.pg)
 //@   ensures[C05,C07] @unmapped unmapped(vmi)
+//@   ensures[C07] @separator vmi.menuSeparator != "" ==> vmi.mn.sep == vmi.menuSeparator
 //@   ensures @sizer (vmi.sizer != nil ==> vmi.pg.sizer == vmi.sizer) && (vmi.sizer == nil ==> vmi.pg.sizer == old(vmi.pg.sizer))
 //@   ensures[C02,C07] @cursors old(vmi.pg.sizer == nil || vmi.pg.sizer == vmi.sizer) && old(vmi.pg.sizer) != nil ==> len(vmi.pg.sizer.crsrs) == 0
 //@   ensures @sizerkept old(vmi.pg.sizer) == nil && vmi.sizer != nil ==> vmi.sizer.memberSizes == old(vmi.sizer.memberSizes) && vmi.sizer.sink == old(vmi.sizer.sink)
@@ -626,6 +635,7 @@ package vm
 //@   requires sizer != nil ==> render.sizerOk(sizer) && sizer.memberSizes != cac(ca).Sizes
 //@   modifies sizer.crsrs, sizer.sink, sizer.memberSizes, sizer.totalMemberSize
 //@   ensures @new fresh(result) && result.st == st && result.ca == ca && result.rs == rs && result.sizer == sizer
+//@   ensures @newmenu result.mn != nil && fresh(result.mn)
 //@   ensures @vm vmOk(result) && render.pageOk(result.pg) && session(result)
 //@   ensures[C05,C07] @unmapped unmapped(result)
 
